@@ -46,8 +46,8 @@ TIERS = {
             "controls": 1,
             "families": [
                 {"Mode": "full", "NMets": 2, "NRxns": 3, "Pal": "PalS", "Dirs": "DirsMax"},
-                {"Mode": "rand", "NMets": 3, "NRxns": 5, "Pal": "PalB", "Dirs": "DirsMax", "NWalks": 300},
-                {"Mode": "rand", "NMets": 2, "NRxns": 4, "Pal": "PalInf", "Dirs": "DirsMax", "NWalks": 120},
+                {"Mode": "rand", "NMets": 3, "NRxns": 5, "Pal": "PalB", "Dirs": "DirsMax", "NWalks": 240},
+                {"Mode": "rand", "NMets": 2, "NRxns": 4, "Pal": "PalInf", "Dirs": "DirsMax", "NWalks": 100},
             ],
             "exact_every": 6,
         },
@@ -126,7 +126,7 @@ TIERS["C20"] = {
         "controls": 99,
         "families": [
             {"Mode": "full", "NMets": 2, "NRxns": 3, "Pal": "PalA", "Dirs": "DirsBoth"},
-            {"Mode": "rand", "NMets": 3, "NRxns": 5, "Pal": "PalB", "Dirs": "DirsMax", "NWalks": 2500},
+            {"Mode": "rand", "NMets": 3, "NRxns": 5, "Pal": "PalB", "Dirs": "DirsMax", "NWalks": 1800},
         ],
         "exact_every": 0,
     },
